@@ -28,6 +28,18 @@ ValidCircuit(cs) == Cardinality(Grounds(cs)) <= 1 /\ Cardinality({cs[i].id : i \
 \* reference node: the ground component's node, else the first terminal of the first component
 RefOf(cs) == IF Grounds(cs) # {} THEN cs[CHOOSE i \in Grounds(cs) : TRUE].n1 ELSE cs[1].n1
 
+\* component constructors reject negative resistance, conductance, capacitance, inductance,
+\* frequency, rated power / voltage, and unknown waveform types (value exactly 0 is valid)
+NonNeg(v, f) == f \notin DOMAIN v \/ RSign(v[f]) >= 0
+ValidComp(c) ==
+  LET v == c.v IN
+  CASE c.kind \in {"resistor", "conductance", "capacitor", "inductance"} -> NonNeg(v, "R") /\ NonNeg(v, "G") /\ NonNeg(v, "C") /\ NonNeg(v, "L")
+    [] c.kind \in {"lamp", "resistive_load"} -> NonNeg(v, "P") /\ NonNeg(v, "V_ref")
+    [] c.kind \in {"dc_voltage_source", "dc_current_source"} -> NonNeg(v, "R") /\ NonNeg(v, "G")
+    [] c.kind \in {"ac_voltage_source", "ac_current_source"} -> NonNeg(v, "R") /\ NonNeg(v, "G") /\ NonNeg(v, "w")
+    [] c.kind \in {"periodic_voltage_source", "periodic_current_source"} -> NonNeg(v, "R") /\ NonNeg(v, "G") /\ NonNeg(v, "w") /\ v.wave \in Waves
+    [] OTHER -> TRUE
+
 \* ------------------------------------------------------- element at frequency w
 WithPi(e, k) == e @@ [pik |-> k]
 AtFrequency(w, ws, res) == RLe(RAbs(RSub(w, ws)), res)
